@@ -982,6 +982,10 @@ impl<'r, 'a> V<'r, 'a> {
                 }
             }
             self.visit_stmt(st);
+            // end-of-statement marker (anchor for `after "<statement>"` hints); not for a tail expression
+            if !matches!(st, Stmt::Expr(_, None)) {
+                self.edits.push(Edit { start: e, end: e, text: format!(" /*@E:{}@*/", stext) });
+            }
         }
         if closers > 0 {
             let (_, be) = rng(b.span());
